@@ -676,3 +676,38 @@ def c05_l2(ctx):
                 yield bad("C05-L2", key, at(f, t["span"]["line"]), "%s decides a value from the end of its input (%s) but more is read from the same reader `%s` afterwards (%s at L%d): the item is not self-delimiting, written back to back it swallows or loses what follows" % (short(g), E[g], rd, later[0][1], f.blocks[later[0][0]]["term"]["span"]["line"]))
             else:
                 yield ok("C05-L2", key, at(f, t["span"]["line"]), "tail position on reader `%s` (%s: %s)" % (rd, short(g), E[g]))
+
+
+# ================================================================ C05-L6
+def _delegates(ctx, f, what, codec_names, depth=0):
+    """Codec types whose `what` (encode / decode) f hands nested items to; pass-through helpers that
+    have `what` but are not codec types themselves (enums with encode only) are expanded."""
+    out = set()
+    for g in [f] + ctx.prog.closures_of(f):
+        for b, t in g.all_calls():
+            for tg in ctx.prog.call_targets(t):
+                if tg.name != what or tg.crate != "cfdp_core" or not tg.impl_self_adt or tg.norm == f.norm:
+                    continue
+                nm = tg.impl_self_adt.split("::")[-1]
+                if nm in codec_names:
+                    out.add(nm)
+                elif depth < 3:
+                    out |= _delegates(ctx, tg, what, codec_names, depth + 1)
+    return out
+
+
+@rule("C05", "C05-L6", 30, "sibling agreement on nesting: the nested item types an encoder hands to their own encode are exactly those its decoder hands to their own decode (a decoder that re-implements an item's wire format by hand is not checked against that item's encoder)")
+def c05_l6(ctx):
+    types = codec_types(ctx)
+    if len(types) < 30:
+        raise Anchor("C05-L6", "types with encode+decode (found %d)" % len(types))
+    names = {p.split("::")[-1] for p in types}
+    for path in sorted(types):
+        fe, fd = types[path]["encode"], types[path]["decode"]
+        tn = path.split("::")[-1]
+        E = _delegates(ctx, fe, "encode", names)
+        D = _delegates(ctx, fd, "decode", names)
+        if E == D:
+            yield ok("C05-L6", tn, at(fd), {"nested": sorted(E)}, nontrivial=bool(E))
+        else:
+            yield bad("C05-L6", tn, at(fd), "encode delegates to %s, decode to %s: %s" % (sorted(E), sorted(D), ("the decoder reads %s by hand instead of through its decode" % sorted(E - D)) if E - D else ("the encoder writes %s by hand instead of through its encode" % sorted(D - E))))
